@@ -1,11 +1,11 @@
 (* C14 - non-blocking operations never wait and tell the truth *)
 From KV Require Import Base Chan Atomic Mem Mutex.
-From KV.proofs Require Import Assoc Inv StepInv Ledger LedgerCor Ops LockProfile MutexProof.
+From KV.proofs Require Import Assoc Inv StepInv Ledger LedgerCor Ops LockDiscipline MutexProof.
 
 (* never wait for a peer: no try_* / drain_into entry point of the current source contains a wait,
    and the model's steps never register a waiter *)
 Theorem c14_no_wait_in_the_source :
-  forallb (fun fn => match Mem.skel_lookup fn Gen_Skel.lock_profiles with Some ls => negb (waits ls) | None => false end) nonblocking_fns = true.
+  forallb (fun fn => match has_event "wait"%string fn with Some false => true | _ => false end) nonblocking_fns = true.
 Proof. exact nonblocking_never_wait. Qed.
 
 Theorem c14_try_send_never_registers : forall a h x opt,
@@ -39,10 +39,10 @@ Proof. exact try_send_accepted. Qed.
 
 (* realtime: one lock attempt, never the blocking acquisition; a taken lock means "not done" at once *)
 Theorem c14_realtime_never_waits_for_the_lock :
-  forallb (fun fn => match Mem.skel_lookup fn Gen_Skel.lock_profiles with Some ls => negb (uses_blocking_acquire ls) | None => false end) realtime_fns = true /\
+  forallb (fun fn => match has_event "acquire"%string fn with Some false => true | _ => false end) realtime_fns = true /\
   (forall o_s o_u s t ok s', mstep o_s o_u s t (MTryLock ok) = Some s' ->
      (ok = true /\ m_pc s' t = MHold) \/ (ok = false /\ m_pc s' t = MIdle /\ m_flag s = true)).
-Proof. split; [exact realtime_never_block_on_the_lock|exact try_lock_never_waits]. Qed.
+Proof. split; [exact realtime_never_use_the_blocking_acquisition|exact try_lock_never_waits]. Qed.
 
 Theorem c14_realtime_gives_up_when_busy : forall a h x,
   is_side a h SSend = true ->
